@@ -371,7 +371,7 @@ theorem C05_wide_string_narrowed (bytes : List Nat) :
     cexprTop [] (.str .L bytes) = .ok (.str bytes) ∧
     emitMacro ⟨false, false⟩ (.str bytes) = some (.bytes (bytes ++ [0])) ∧
     cEval [] (.str .L bytes) = .val (.str .L bytes true) ∧ hasWideString (.str .L bytes) = true := by
-  simp [cexprTop, cexprNum, cexprStr, cEval, emitMacro, hasWideString]
+  simp [cexprTop, cexprNum, cexprStr, cEval, emitMacro, emitMacroC, hasWideString]
 
 /-- with `--clang-macro-fallback`, `((unsigned long long)-1)` is carried as i64 −1 → `i32` -/
 theorem C05_fallback_unsigned_wraps :
